@@ -345,8 +345,26 @@ func (f *File) writeAt(b []byte, off int64, op string) (int, error) {
 		return 0, perr(op, f.path, syscall.ENOSPC)
 	case "short":
 		n := act.N
-		if n > len(b) {
-			n = len(b)
+		if n >= len(b) {
+			n = len(b) - 1 // a short write never transfers everything
+		}
+		if n < 0 {
+			n = 0
+		}
+		// The bytes not transferred must leave the file different from a
+		// complete write (nutsdb preallocates zero-filled segments, so a
+		// record ending in zero bytes could otherwise be "torn" into exactly
+		// the complete record): stop before the last byte that changes anything.
+		last := -1
+		for i := len(b) - 1; i >= 0; i-- {
+			pos := off + int64(i)
+			if pos >= int64(len(f.ino.Data)) || f.ino.Data[pos] != b[i] {
+				last = i
+				break
+			}
+		}
+		if last >= 0 && n > last {
+			n = last
 		}
 		f.d.apply(f.ino, b[:n], off)
 		return n, perr(op, f.path, syscall.ENOSPC)
